@@ -97,6 +97,7 @@ def gen_program(rng, size: int = 10, with_args: bool = True, control_flow: bool 
             "reduce", "topk", "split", "unique", "seq", "seq_at", "optional", "where", "inline",
             "range", "const_of_shape", "size", "identity", "unsqueeze", "if", "binary_arg", "concat_from_seq",
             "arg_default", "arg_default", "seq_pair", "opt_pair",
+            "inline0", "inline0", "intdiv", "intdiv", "intdiv_shape", "intdiv_shape",
         ])
         if choice == "const":
             new_const()
@@ -312,11 +313,62 @@ def gen_program(rng, size: int = 10, with_args: bool = True, control_flow: bool 
                 j = pick(lambda v: is_num(v) and v.shape == [3] and v.dt == "i64")
                 emit({"op": "inline", "args": [i, j]}, _V("tensor", "i64", [3], vs[i].const and vs[j].const),
                      _V("tensor", "i64", [3], vs[i].const and vs[j].const))
+        elif choice == "inline0":
+            # a node-less pass-through model (its outputs are its inputs) inlined on a constant / any tensor
+            i = pick(lambda v: is_t(v) and v.dt in NUM + ["bool"] and (v.const or rng.random() < 0.3))
+            if i is not None:
+                emit({"op": "inline0", "args": [i], "dt": vs[i].dt, "shape": list(vs[i].shape)},
+                     _V("tensor", vs[i].dt, vs[i].shape, vs[i].const))
+        elif choice == "intdiv":
+            # signed integer Div / Mod of constants with both signs and inexact quotients, rank 0 / 1
+            dt = rng.choice(["i64", "i64", "i32"])
+            n = rng.choice([0, 1, 2, 4])
+            pool = [(-7, 2), (7, -2), (-9, 4), (8, -3), (-1, 2), (5, 3), (-5, -3), (-13, 5), (9, -4), (-6, 3)]
+            prs = [rng.choice(pool) for _ in range(max(n, 1))]
+            shape = [] if n == 0 else [n]
+            a = emit({"op": "const", "how": rng.choice(["value", "init"]), "dt": dt, "shape": shape, "data": [p[0] for p in prs]}, _V("tensor", dt, shape, True))
+            b = emit({"op": "const", "how": "value", "dt": dt, "shape": shape, "data": [p[1] for p in prs]}, _V("tensor", dt, shape, True))
+            which = rng.choice(["div", "div", "mod0", "mod1"])
+            if which == "div":
+                emit({"op": "div", "args": [a, b]}, _V("tensor", dt, shape, True))
+            else:
+                emit({"op": "mod", "args": [a, b], "fmod": int(which[-1])}, _V("tensor", dt, shape, True))
+        elif choice == "intdiv_shape":
+            # ... and the quotient used as a shape-like input (Slice start, Tile repeats, Expand / Reshape target, Gather index)
+            C = lambda data, shape: emit({"op": "const", "how": rng.choice(["value", "value", "init"]), "dt": "i64", "shape": shape, "data": data}, _V("tensor", "i64", list(shape), True))  # noqa: E731
+            num, den = rng.choice([(-7, 2), (7, -2), (-5, 2), (-9, 4), (-7, 3)])
+            q = int(num / den)  # ONNX integer Div truncates: -3, -3, -2, -2, -2
+            d = emit({"op": "div", "args": [C([num], [1]), C([den], [1])]}, _V("tensor", "i64", [1], True))
+            xdt = rng.choice(["i64", "f32"])
+            use = rng.choice(["slice", "tile", "expand", "reshape", "gather"])
+            if use == "slice":
+                x = new_const(xdt, [6], "value")
+                emit({"op": "slice", "args": [x, d, C([6], [1])]}, _V("tensor", xdt, [-q], True))
+            elif use == "gather":
+                x = new_const(xdt, [6], "value")
+                emit({"op": "gather", "args": [x, d]}, _V("tensor", xdt, [1], True))
+            else:
+                pos = emit({"op": "neg", "args": [d]}, _V("tensor", "i64", [1], True))  # 3 or 2
+                if use == "tile":
+                    x = new_const(xdt, [2], "value")
+                    emit({"op": "tile", "args": [x, pos]}, _V("tensor", xdt, [2 * -q], True))
+                elif use == "expand":
+                    x = new_const(xdt, [1], "value")
+                    emit({"op": "expand", "args": [x, pos]}, _V("tensor", xdt, [-q], True))
+                else:
+                    x = new_const(xdt, [6], "value")
+                    t = emit({"op": "concat", "args": [pos, C([-1], [1])]}, _V("tensor", "i64", [2], True))
+                    emit({"op": "reshape", "args": [x, t]}, _V("tensor", xdt, [-q, 6 // -q], True))
         elif choice == "if":
             i = pick(lambda v: is_num(v)) if control_flow else None
             if i is not None:
                 c = new_const("bool", [], "value")
                 emit({"op": "if", "args": [c, i]}, _V("tensor", vs[i].dt, vs[i].shape, False))
+    # constants / initializers created from NON-NATIVE-ENDIAN arrays (np.frombuffer(buf, '>f4') ...):
+    # same values, other byte order - also for the shape-like targets emitted above
+    for st in steps:
+        if st["op"] == "const" and st.get("how") in ("value", "init") and st.get("dt") in NUM and rng.random() < 0.3:
+            st["endian"] = ">"
     return steps
 
 
@@ -340,9 +392,28 @@ def _inline_model():
     return _INLINE_MODEL
 
 
+_PASSTHROUGH: dict = {}
+
+
+def _passthrough_model(dt: str, shape: tuple):
+    """A model without nodes: its single output *is* its input (`x`)."""
+    import onnx
+    import onnx.helper as oh
+
+    key = (dt, shape)
+    if key not in _PASSTHROUGH:
+        et = oh.np_dtype_to_tensor_dtype(np.dtype(_NP[dt]))
+        vi = oh.make_tensor_value_info("x", et, list(shape))
+        g = oh.make_graph([], "passthrough", [vi], [vi])
+        _PASSTHROUGH[key] = oh.make_model(g, opset_imports=[oh.make_operatorsetid("", 17)])
+    return _PASSTHROUGH[key]
+
+
 def _array(step):
     dt = step["dt"]
     arr = np.array(step["data"], dtype=_NP[dt]).reshape(tuple(step["shape"]))
+    if step.get("endian") == ">":
+        arr = arr.astype(arr.dtype.newbyteorder(">"))
     return arr
 
 
@@ -374,7 +445,11 @@ def apply_step(step: dict, vars_: list) -> list:
         if o == "concat_from_sequence":
             return [op.concat_from_sequence(a[0], axis=0)]
         return [getattr(op, o)(a[0])]
-    if o in ("add", "sub", "mul", "equal", "less", "reshape", "expand", "tile", "sequence_at"):
+    if o == "mod":
+        return [op.mod(a[0], a[1], fmod=step["fmod"])]
+    if o == "inline0":
+        return list(inline(_passthrough_model(step["dt"], tuple(step["shape"])))(x=a[0]).values())
+    if o in ("add", "sub", "mul", "div", "equal", "less", "reshape", "expand", "tile", "sequence_at"):
         return [getattr(op, o)(a[0], a[1])]
     if o == "cast":
         return [op.cast(a[0], to=_NP[step["to"]])]
@@ -545,8 +620,11 @@ def c07_check_program(steps: list, sel: str, seed: int) -> dict:
     fails: list = []
     stats = {"valued": 0, "compared": 0, "derived_types": 0, "multi": 0}
     r = run_program(steps, sel)
+    infra = None
     if r["raised"]:
-        return {"failures": [], "stats": stats, "infra": f"program raised {r['raised']}"}
+        # judge the Vars constructed before the raising step all the same (a wrong propagated constant
+        # typically shows up *before* the operator that chokes on it)
+        infra = f"program raised {r['raised']}"
     vars_ = r["vars"]
     valued = [(i, v) for i, v in enumerate(vars_) if L.has_value(v)]
     stats["valued"] = len(valued)
@@ -564,23 +642,45 @@ def c07_check_program(steps: list, sel: str, seed: int) -> dict:
     args = {f"a{i}": v for i, v in enumerate(vars_) if _is_arg(v)}
     exposed = [(i, v) for i, v in enumerate(vars_) if _exposable(v)]
     if not exposed:
-        return {"failures": fails, "stats": stats}
+        return {"failures": fails, "stats": stats, "infra": infra}
     try:
         model = spox.build(args, {f"v{i}": v for i, v in exposed})
     except Exception as e:  # noqa: BLE001
         return {"failures": fails, "stats": stats, "infra": f"build failed {type(e).__name__}: {str(e)[:200]}"}
     for trial in range(2):  # two different bindings of the (unrelated) inputs
+        feed = random_feed(model, seed * 7 + trial)
         try:
-            outs = ort_run(model, random_feed(model, seed * 7 + trial))
+            outs = ort_run(model, feed)
         except Exception as e:  # noqa: BLE001
             return {"failures": fails, "stats": stats, "infra": f"ort failed {type(e).__name__}: {str(e)[:200]}"}
-        for (i, v), o in zip(exposed, outs):
+        ref_outs: list = []  # onnx.reference on the built model, computed only if onnxruntime disagrees
+
+        def second_opinion(pos):
+            """The other evaluator's result for output `pos` of the *built* model (None if unavailable)."""
+            if not ref_outs:
+                try:
+                    import onnx.reference
+
+                    ref_outs.append(onnx.reference.ReferenceEvaluator(model).run(None, feed))
+                except Exception:  # noqa: BLE001
+                    ref_outs.append(None)
+            return None if ref_outs[0] is None else ref_outs[0][pos]
+
+        for pos, ((i, v), o) in enumerate(zip(exposed, outs)):
             opn = steps[r["step_of_var"][i]]["op"]
             if L.has_value(v):
                 stats["compared"] += 1
-                if opn in ("topk", "split", "unique", "inline"):
+                if opn in ("topk", "split", "unique", "inline", "inline0"):
                     stats["multi"] += 1
                 why = values_equal(v._get_value(), o)
+                if why:
+                    # onnxruntime is the reference for "what the model computes", but it has defects of its
+                    # own (1.30: Gather on 2-D string tensors drops elements). A disagreement counts only if
+                    # onnx.reference, run on the same built model, does not side with the propagated value.
+                    alt = second_opinion(pos)
+                    if alt is not None and values_equal(v._get_value(), alt) is None:
+                        stats["evaluators_disagree"] = stats.get("evaluators_disagree", 0) + 1
+                        why = None
                 if why:
                     which = v._which_output
                     fails.append((f"value-differs:{opn}:{which}:{why.split(':')[0]}",
@@ -590,9 +690,13 @@ def c07_check_program(steps: list, sel: str, seed: int) -> dict:
             if isinstance(o, np.ndarray):
                 why = L.conforms(o if o.dtype.kind != "O" else o.astype(str), v.type)
                 if why:
+                    alt = second_opinion(pos)
+                    if isinstance(alt, np.ndarray) and L.conforms(alt if alt.dtype.kind != "O" else alt.astype(str), v.type) is None:
+                        why = None
+                if why:
                     fails.append((f"type-unsound:{opn}:{why.split(':')[0]}",
                                   f"[{sel}] var {i} of {opn} reported {v.type} but the built model gives {o.dtype}{list(o.shape)}"))
-    return {"failures": fails, "stats": stats}
+    return {"failures": fails, "stats": stats, "infra": infra}
 
 
 FAULT_KINDS = ["raise", "unknown-name", "list2", "none", "scalar", "wrongdtype", "wrongshape", "truncated",
